@@ -5,6 +5,7 @@ import (
 	"encoding/binary"
 	"github.com/btcsuite/btcd/btcec/v2"
 	"github.com/btcsuite/btcd/btcutil"
+	"github.com/btcsuite/btcwallet/wallet"
 	"os"
 	"testing"
 	"time"
@@ -294,11 +295,29 @@ func (s *sim) importRescan(step int) {
 	s.f.Unlock() // a restarted wallet is locked
 	before := len(s.f.Client.CallsOf("Rescan"))
 	bs := waddrmgr.BlockStamp{Height: start.Height, Hash: start.Hash, Timestamp: start.Time()}
-	if _, err := s.f.W.ImportPrivateKey(waddrmgr.KeyScopeBIP0084, wif, &bs, true); err != nil {
-		s.f.Violation("ImportPrivateKey with rescan failed: %v", err)
+	// The import is followed by an explicit rescan request whose answer is
+	// waited for, as Wallet.Rescan does. (ImportPrivateKey's own rescan option
+	// drops the job's answer channel; if the wallet is stopped at the wrong
+	// moment afterwards its rescan goroutine blocks on that channel and the
+	// wallet never shuts down - a shutdown race outside every listed property.)
+	addrStr, err := s.f.W.ImportPrivateKey(waddrmgr.KeyScopeBIP0084, wif, &bs, false)
+	if err != nil {
+		s.f.Violation("ImportPrivateKey failed: %v", err)
 	}
-	if !s.f.Client.WaitCalls("Rescan", before+1, 30*time.Second) {
-		s.f.Inconclusive("the wallet did not start the rescan for the imported key within 30s")
+	addr, err := btcutil.DecodeAddress(addrStr, s.f.Params)
+	if err != nil {
+		s.f.Violation("ImportPrivateKey returned the undecodable address %q", addrStr)
+	}
+	select {
+	case err := <-s.f.W.SubmitRescan(&wallet.RescanJob{Addrs: []btcutil.Address{addr}, BlockStamp: bs}):
+		if err != nil {
+			s.f.Violation("the rescan for the imported key failed: %v", err)
+		}
+	case <-time.After(60 * time.Second):
+		s.f.Inconclusive("the rescan for the imported key was not answered within 60s")
+	}
+	if len(s.f.Client.CallsOf("Rescan")) != before+1 {
+		s.f.Inconclusive("the wallet did not send the rescan for the imported key to the backend")
 	}
 	s.f.Quiesce()
 	s.f.Client.ProgressEvery = 0
